@@ -139,8 +139,19 @@ impl Chunk {
         let mut size_buf = [0u8; 4];
         reader.read_exact(&mut size_buf)?;
         let size = u32::from_le_bytes(size_buf);
-        let mut data = vec![0u8; size as usize];
-        reader.read_exact(&mut data)?;
+        // The size comes from the file: read through `take` so that the buffer
+        // grows with the data actually present instead of being allocated up front
+        let mut data = Vec::new();
+        reader
+            .by_ref()
+            .take(u64::from(size))
+            .read_to_end(&mut data)?;
+        if data.len() != size as usize {
+            return Err(io::Error::new(
+                io::ErrorKind::UnexpectedEof,
+                "chunk size exceeds remaining data",
+            ));
+        }
 
         Ok(Self { magic, size, data })
     }
